@@ -99,7 +99,9 @@ struct TpdoRun : NodeEnv {
     void triggerByObject(uint16_t idx, uint8_t sub, uint64_t tick) { const ObjDef *d = od(idx, sub); if (!d || !d->async) return; for (auto &t : T) if (t.exists && t.active) { int links = 0; for (auto &me : t.map) if (me.idx == idx && me.sub == sub) links++; for (int i = 0; i < links; i++) tx(t, tick); } }
 
     void op(const Op &o) {
-        const std::string &k = o.k; size_t mk = w.mark(); uint64_t t0 = now(); exp.clear(); bool judge = true;
+        const std::string &k = o.k;
+        if (k == "sync" && o.arg(0, 1) > 1) { int64_t cnt = std::min<int64_t>(o.arg(0), 2000); cov.hit("long-sync-run"); if (cnt >= 256) cov.hit("sync-run-of-256-or-more"); for (int64_t i = 0; i < cnt && v.ok; i++) op(Op("sync")); return; }   // every SYNC of a run is judged on its own
+        size_t mk = w.mark(); uint64_t t0 = now(); exp.clear(); bool judge = true;
         if (k == "obj" || k == "tpdo") return;
         if (k == "tick") { w.tick(0, (uint64_t)o.arg(0)); }
         else if (k == "nmt") { uint8_t cs = (uint8_t)o.arg(0); deliver(Frame(0, 2, {cs, 0})); if (cs == 1) enterMode(M_OP); else if (cs == 2) enterMode(M_STOP); else if (cs == 128) enterMode(M_PREOP); else if (cs == 129 || cs == 130) { enterMode(M_PREOP); } }
@@ -171,7 +173,7 @@ Plan gen_tpdo(Rng &r, bool thorough) {
     for (int i = 0; i < nobj; i++) p.ops.push_back(Op("obj", {r.pick<int64_t>({1, 1, 2, 2, 4, 4}), (int64_t)r.chance(1, 2), (int64_t)r.below(2), (int64_t)r.below(0x10000) * 65537}));
     int ntp = (int)r.range(1, 4);
     for (int i = 0; i < ntp; i++) {
-        int64_t type = r.chance(1, 3) ? r.pick<int64_t>({1, 1, 2, 3, 5, 240}) : r.pick<int64_t>({254, 255});
+        int64_t type = r.chance(1, 3) ? r.pick<int64_t>({1, 1, 2, 3, 5, 240, 6, 7, 10, 100, 128, 239}) : r.pick<int64_t>({254, 255});
         int64_t inh = r.chance(1, 2) ? 0 : r.pick<int64_t>({1, 2, 3, 5, 10, 20}) * u * 10; int64_t ev = r.chance(1, 2) ? 0 : r.pick<int64_t>({1, 2, 3, 5, 10, 20}) * u;
         if (r.chance(1, 6) && inh) ev = inh / 10;           // inhibit == event
         Op t("tpdo", {i, (int64_t)r.chance(5, 6), type, inh, ev}); int nm = (int)r.range(1, 8); for (int j = 0; j < nm; j++) { t.b.push_back((uint8_t)r.below((uint32_t)nobj)); t.b.push_back(r.byte()); }
@@ -185,7 +187,7 @@ Plan gen_tpdo(Rng &r, bool thorough) {
         else if (c < 11) p.ops.push_back(Op(r.chance(3, 4) ? "wr" : "sdowr", {(int64_t)r.below((uint32_t)nobj), r.chance(1, 4) ? 0 : (int64_t)r.below(0x10000) * 65537}));
         else if (c < 14) p.ops.push_back(Op("trigpdo", {(int64_t)r.below(4)}));
         else if (c == 14) p.ops.push_back(Op("trigobj", {(int64_t)r.below((uint32_t)nobj)}));
-        else if (c < 17) p.ops.push_back(Op("sync"));
+        else if (c < 17) { if (r.chance(1, 12)) p.ops.push_back(Op("sync", {r.chance(1, 2) ? r.range(250, 600) : r.range(2, 1100)})); else p.ops.push_back(Op("sync")); }
         else if (c == 17) { std::vector<uint8_t> b; for (int j = 0; j < 8; j++) b.push_back(r.byte()); p.ops.push_back(Op("rpdo", {}, b)); }
         else if (c == 18) p.ops.push_back(Op("nmt", {r.pick<int64_t>({1, 1, 2, 128, 130})}));
         else if (c < 21) p.ops.push_back(Op("cobid", {(int64_t)r.below(4), (int64_t)r.below(2)}));
